@@ -217,15 +217,16 @@ def run_names(sc, fl):
         pypyr.cache.admin.clear_all()
         # ---- facts about the file system (monitor side) -------------------------------------------------
         parent = case.get('parent')
+        pp = case.get('probe_parent')      # the directory of the calling parent pipeline / the parent handed in
         probe = {'abs': name.startswith('/'), 'cands': []}
-        if parent:
-            probe['parent'] = {'exists': os.path.isdir(parent), 'real': os.path.realpath(parent),
-                               'is_cwd': os.path.isdir(parent) and os.path.samefile(parent, cwd)}
+        if pp:
+            probe['parent'] = {'exists': os.path.isdir(pp), 'real': os.path.realpath(pp),
+                               'is_cwd': os.path.isdir(pp) and os.path.samefile(pp, cwd)}
         if name.startswith('/'):
             c = name + '.yaml'
             probe['cands'].append([None, os.path.isfile(c), os.path.realpath(c)])
         else:
-            for key, d in (('parent', os.path.realpath(parent) if parent else None), ('cwd', cwd),
+            for key, d in (('parent', os.path.realpath(pp) if pp else None), ('cwd', cwd),
                            ('sub', cwd + '/pipelines'), ('builtin', builtin)):
                 if d is not None:
                     c = d + '/' + name + '.yaml'
